@@ -27,6 +27,9 @@ pub struct Case13 {
     /// may have switched the rewriter's logger on at any time
     #[serde(default)]
     pub log_level: String,
+    /// the reader re-enters: at its first open a complete rewrite runs on another instance
+    #[serde(default)]
+    pub reenter: bool,
 }
 
 #[derive(Serialize, Deserialize, Clone, Debug)]
@@ -628,6 +631,7 @@ pub fn gen_case(rng: &mut Rng, tier: Tier, for_sweep: bool) -> Case13 {
         faults: FaultPlan::clean(),
         tags: vec![format!("src:{skind}"), format!("file:{fshape}"), format!("ref:{ref_kind}"), format!("map:{map_class}"), format!("cfg:{cfg_kind}")],
         log_level: (*rng.pick(&["off", "off", "off", "error", "debug", "debug", "trace"])).to_string(),
+        reenter: !for_sweep && rng.chance(1, 10),
     }
 }
 
@@ -749,7 +753,34 @@ fn run_case(c: &Case13) -> CaseResult {
         "trace" => log::LevelFilter::Trace,
         _ => log::LevelFilter::Off,
     });
-    let res = exec::call(&cfg, &c.source, &c.file, &c.fs, &c.faults);
+    let res = if c.reenter {
+        // the host's reader calls back into the rewriter (another instance) before it answers
+        let inner_cfg = exec::make_config(&exec::tracer_like_cfg(Some("inner"), true, true, "DEBUG", true), 7).ok();
+        let inner_out: std::cell::RefCell<Option<Outcome>> = std::cell::RefCell::new(None);
+        let r = {
+            let io = &inner_out;
+            let ic = &inner_cfg;
+            let fs = &c.fs;
+            exec::call_reentrant(
+                &cfg,
+                &c.source,
+                &c.file,
+                &c.fs,
+                &c.faults,
+                Box::new(move || {
+                    if let Some(ic) = ic {
+                        *io.borrow_mut() = Some(exec::call(ic, "function inner(a, b) { return a + b.trim(); }\n//# sourceMappingURL=inner.js.map\n", "/abs/inner/x.js", fs, &FaultPlan::clean()).outcome);
+                    }
+                }),
+            )
+        };
+        if let Some(Outcome::Panic { msg, loc }) = inner_out.into_inner() {
+            viol.push(Violation::new("T1", format!("T1:panic:nested:{loc}"), format!("a rewrite started from inside the file reader panicked at {loc}: {msg}; tags={:?}", c.tags)));
+        }
+        r
+    } else {
+        exec::call(&cfg, &c.source, &c.file, &c.fs, &c.faults)
+    };
     log::set_max_level(log::LevelFilter::Off);
     match &res.outcome {
         Outcome::Panic { msg, loc } => {
